@@ -153,19 +153,19 @@ func c06WriterTokens(fn *ssa.Function) (toks []c06Tok, start *ssa.Call) {
 			arg := ""
 			switch CalleeName(&call.Call) {
 			case "(*http2.Framer).writeByte":
-				kinds, arg = []string{"u8"}, Term(call.Call.Args[1])
+				kinds, arg = []string{"u8"}, Term(BaselineArgs(&call.Call)[1])
 			case "(*http2.Framer).writeUint16":
-				kinds, arg = []string{"u16"}, Term(call.Call.Args[1])
+				kinds, arg = []string{"u16"}, Term(BaselineArgs(&call.Call)[1])
 			case "(*http2.Framer).writeUint32":
-				kinds, arg = []string{"u32"}, Term(call.Call.Args[1])
+				kinds, arg = []string{"u32"}, Term(BaselineArgs(&call.Call)[1])
 			case "(*http2.Framer).writeBytes":
-				kinds, arg = []string{"bytes"}, Term(call.Call.Args[1])
+				kinds, arg = []string{"bytes"}, Term(BaselineArgs(&call.Call)[1])
 			case "builtin:append":
-				if !c06IsWbufLoad(call.Call.Args[0]) {
+				if !c06IsWbufLoad(BaselineArgs(&call.Call)[0]) {
 					continue
 				}
-				kinds, arg = []string{"bytes"}, Term(call.Call.Args[1])
-				if sl, ok := call.Call.Args[1].(*ssa.Slice); ok {
+				kinds, arg = []string{"bytes"}, Term(BaselineArgs(&call.Call)[1])
+				if sl, ok := BaselineArgs(&call.Call)[1].(*ssa.Slice); ok {
 					if al, ok := sl.X.(*ssa.Alloc); ok {
 						if arr, ok := al.Type().(*types.Pointer).Elem().Underlying().(*types.Array); ok {
 							kinds = nil
@@ -232,7 +232,7 @@ func c06PayloadDerived(v ssa.Value, param *ssa.Parameter, depth int) bool {
 		if call, ok := x.Tuple.(*ssa.Call); ok && x.Index == 0 {
 			n := CalleeName(&call.Call)
 			if n == "http2.readByte" || n == "http2.readUint32" {
-				return c06PayloadDerived(call.Call.Args[0], param, depth+1)
+				return c06PayloadDerived(BaselineArgs(&call.Call)[0], param, depth+1)
 			}
 		}
 	}
@@ -263,11 +263,11 @@ func c06ReaderTokens(fn *ssa.Function, payload *ssa.Parameter) []c06Tok {
 			case *ssa.Call:
 				switch CalleeName(&x.Call) {
 				case "http2.readByte":
-					if c06PayloadDerived(x.Call.Args[0], payload, 0) {
+					if c06PayloadDerived(BaselineArgs(&x.Call)[0], payload, 0) {
 						add(b, in, "u8", "")
 					}
 				case "http2.readUint32":
-					if c06PayloadDerived(x.Call.Args[0], payload, 0) {
+					if c06PayloadDerived(BaselineArgs(&x.Call)[0], payload, 0) {
 						add(b, in, "u32", "")
 					}
 				case "(encoding/binary.bigEndian).Uint32", "(encoding/binary.bigEndian).Uint16":
@@ -275,7 +275,7 @@ func c06ReaderTokens(fn *ssa.Function, payload *ssa.Parameter) []c06Tok {
 					if strings.HasSuffix(CalleeName(&x.Call), "16") {
 						kind = "u16"
 					}
-					if sl, ok := x.Call.Args[len(x.Call.Args)-1].(*ssa.Slice); ok && c06PayloadDerived(sl.X, payload, 0) {
+					if sl, ok := BaselineArgs(&x.Call)[len(BaselineArgs(&x.Call))-1].(*ssa.Slice); ok && c06PayloadDerived(sl.X, payload, 0) {
 						consumedSlices[sl] = true
 						off := "@?"
 						if lo, ok := c06ConstInt(sl.Low); ok {
@@ -284,7 +284,7 @@ func c06ReaderTokens(fn *ssa.Function, payload *ssa.Parameter) []c06Tok {
 						add(b, in, kind, off)
 					}
 				case "builtin:copy":
-					if c06PayloadDerived(x.Call.Args[1], payload, 0) {
+					if c06PayloadDerived(BaselineArgs(&x.Call)[1], payload, 0) {
 						add(b, in, "bytes", "@0")
 					}
 				}
@@ -629,7 +629,7 @@ func c06(c *Ctx) {
 			got := c06Kinds(toks, false)
 			c.Check(got == strings.Join(want, " "), "codec-layout", w+" appends the RFC layout of "+fr.konst, wfn.Pos(), "["+got+"]", "writer appends ["+got+"], layout is ["+strings.Join(want, " ")+"]")
 			// flags
-			bits, err := c06FlagBits(start.Call.Args[2], start.Block(), 0)
+			bits, err := c06FlagBits(BaselineArgs(&start.Call)[2], start.Block(), 0)
 			wantBits := map[int64]string{}
 			for name, cond := range c06Flags[wn] {
 				wantBits[k(name)] = cond
@@ -708,7 +708,7 @@ func c06(c *Ctx) {
 					continue
 				}
 				n++
-				sl, ok := call.Call.Args[len(call.Call.Args)-1].(*ssa.Slice)
+				sl, ok := BaselineArgs(&call.Call)[len(BaselineArgs(&call.Call))-1].(*ssa.Slice)
 				if !ok || sl.Low == nil || sl.High == nil {
 					bad = "decode argument is not p[a:b]"
 					continue
